@@ -263,7 +263,8 @@ def gsd(args):
         notin = [Or(*[Not(Or(*[r[j] == v for v in vals[j]])) for j in range(len(levels))]) for r in rows]
         ctx.check('gsd-generator-rows-use-supplied-levels', Or(*notin))
         # all complementary designs through the generator
-        g2 = O.GSDGenerator(params)
+        # the SAME generator object is initialised again (single design first, now the whole complementary family)
+        g2 = g
         g2.init([list(v) for v in vals], reduction, reduction)
         fam = g2.generate()
         ctx.check('gsd-generator-complementary-family-size', len(fam) != reduction)
